@@ -617,7 +617,7 @@ func (e *Engine) contentLemmas(terms []*Term) []*Term {
 				hasBound = true
 			}
 		}
-		if t.Op == "app" && (contentFns[t.Name] || strings.HasPrefix(t.Name, "pack_")) && len(t.Args) == 3 && len(tb.FreeBound(t)) == 0 {
+		if t.Op == "app" && (contentFns[t.Name] || strings.HasPrefix(t.Name, "packr_")) && len(t.Args) == 3 && len(tb.FreeBound(t)) == 0 {
 			apps[t.Name] = append(apps[t.Name], t)
 		}
 		return hasBound
